@@ -28,6 +28,7 @@ programmer chose.
       swapped and tests the or/and of the positive ones.
   C22 `return A and B or C` over boolean-valued tests (also a single comparison, `bool(<and/or>)`, `any(<generator>)`) ->
       nested `if`s / a loop with literal `return True` / `return False`.
+  C23 `yield a, (X if c else Y)` -> `if c: yield a, X else: yield a, Y`.
   C20 loops / list and dict comprehensions / any() / all() over a display of at most 8 constants are written out (_Unroll).
   C19 the operands of an `and` / `or` are sorted where the order cannot matter: all pure, no None, boolean context or
       boolean-valued operands, and no access path read by two operands (one operand may guard the other's evaluation).
@@ -319,6 +320,32 @@ class _Canon(ast.NodeTransformer):
             ast.copy_location(new.value, n)
             return new
         return n
+
+    # C23: `yield a, (X if c else Y)` (a conditional expression as one element of a yielded tuple whose other elements are
+    # plain names / constants / attribute reads) is `if c: yield a, X` / `else: yield a, Y`
+    def visit_Expr(self, n):
+        self.generic_visit(n)
+        v = n.value
+        if self.pattern or not isinstance(v, ast.Yield) or not isinstance(v.value, ast.Tuple):
+            return n
+        elts = v.value.elts
+        conds = [i for i, e in enumerate(elts) if isinstance(e, ast.IfExp)]
+        simple = lambda e: isinstance(e, (ast.Name, ast.Constant)) or (isinstance(e, ast.Attribute) and isinstance(e.value, ast.Name))
+        if len(conds) != 1 or not all(simple(e) for i, e in enumerate(elts) if i != conds[0]) or _has_meta(v):
+            return n
+        ie = elts[conds[0]]
+
+        def stmt(branch):
+            new_elts = [_deep(e) for e in elts]
+            new_elts[conds[0]] = branch
+            y = ast.Expr(value=ast.Yield(value=ast.Tuple(elts=new_elts, ctx=ast.Load())))
+            for x in ast.walk(y):
+                ast.copy_location(x, n)
+            return y
+        test = ie.test
+        test._boolctx = True
+        new = ast.copy_location(ast.If(test=test, body=[stmt(ie.body)], orelse=[stmt(ie.orelse)]), n)
+        return self.visit_If(new) if False else new
 
     # C22: `return <and/or/not of boolean-valued tests>` is written as the decision tree with literal returns
     def visit_Return(self, n):
